@@ -47,6 +47,19 @@ Theorem C01_core_equivalence :
 Proof. intros respond ustore instr lit_ok awc e NA Hs. exact (rw_correct respond ustore instr lit_ok awc NA (plus_on:=true) eq_refl e Hs). Qed.
 Print Assumptions C01_core_equivalence.
 
+(** The function that is tied to the code on every run is [rw_root] (the expression stands at the root of the operation
+    visitor: parentheses, property reads and the object and key of a computed read are transparent there, and what
+    stands under them is numbered from 0 again): it is equivalent to the source as well. *)
+Theorem C01_root_equivalence :
+  forall (respond : hist -> event -> resp) (ustore : hist -> string -> value)
+         (instr lit_ok awc : string -> bool) (e : expr),
+    (forall f, awc f = false) -> src e ->
+    forall (h : hist) (t : tenv) o h',
+      (forall t2 : tenv, eval respond ustore e (h, t2) = (o, (h', t2))) ->
+      exists t', eval respond ustore (rw_root instr lit_ok awc true e) (h, t) = (o, (h', t')).
+Proof. intros respond ustore instr lit_ok awc e NA Hs. exact (rw_root_correct respond ustore instr lit_ok awc NA (plus_on:=true) eq_refl e Hs). Qed.
+Print Assumptions C01_root_equivalence.
+
 (** The premise is always met: a source expression has an outcome and a history that do not depend on
     the temporaries (it neither reads nor writes them). *)
 Theorem C01_source_ignores_temporaries :
